@@ -98,7 +98,8 @@ type c14Desc struct {
 	puIds   []uint64
 	actPu   []uint64
 	asis    map[string]float64
-	invalid map[string]bool     // bit strings of the reached sets whose fresh instance is invalid
+	w       *c14World
+	invalid map[string]string   // bit strings of the reached sets whose fresh instance is invalid -> token of its error text
 	fresh   map[string]c14Fresh // bit string -> fresh evaluation
 }
 
@@ -115,10 +116,11 @@ type c14World struct {
 	dlist  []*c14Desc
 	stats  map[string]int
 	oracle int
+	errTok map[string]string // validation error text of some fresh instance -> token
 }
 
 func c14NewWorld() *c14World {
-	return &c14World{texts: &c14Texts{ids: map[string]int{}}, descs: map[string]*c14Desc{}, views: map[string]J{}, stats: map[string]int{}}
+	return &c14World{texts: &c14Texts{ids: map[string]int{}}, descs: map[string]*c14Desc{}, views: map[string]J{}, stats: map[string]int{}, errTok: map[string]string{}}
 }
 
 func c14BuildModel(config *engineData.ScenarioConfig) (m *catchment.Model, kind string) {
@@ -166,7 +168,7 @@ func (w *c14World) tomlView(text string) (view J) {
 		w.views[text] = view
 		return view
 	}
-	d := &c14Desc{id: len(w.dlist), text: text, config: config, asis: map[string]float64{}, invalid: map[string]bool{}, fresh: map[string]c14Fresh{}}
+	d := &c14Desc{id: len(w.dlist), text: text, config: config, asis: map[string]float64{}, invalid: map[string]string{}, fresh: map[string]c14Fresh{}, w: w}
 	for _, a := range cm.ManagementActions() {
 		d.actions = append(d.actions, [2]string{strconv.FormatUint(uint64(a.PlanningUnit()), 10), string(a.Type())})
 		d.actPu = append(d.actPu, uint64(a.PlanningUnit()))
@@ -230,7 +232,12 @@ func (d *c14Desc) freshEval(bits []bool) c14Fresh {
 	}
 	d.fresh[key] = f
 	if !valid {
-		d.invalid[key] = true
+		tok, ok := d.w.errTok[f.errs]
+		if !ok {
+			tok = "E" + strconv.Itoa(len(d.w.errTok))
+			d.w.errTok[f.errs] = tok
+		}
+		d.invalid[key] = tok
 	}
 	return f
 }
@@ -517,9 +524,9 @@ func c14ActionMap(v interface{}) (map[string][]string, bool) {
 	return out, true
 }
 
-// c14Attrs: ordered attribute list of a served solution; a ValidationErrors value equal to the validation error text
-// of a fresh model instance in the served action set (engineErrs) is replaced by the token "E" (the model's d_errs).
-func c14Attrs(v interface{}, engineErrs string) ([][]interface{}, bool) {
+// attrs: ordered attribute list of a served solution; a ValidationErrors value equal to the validation error text of
+// some fresh model instance evaluated so far is replaced by that text's token (what the model's d_errs yields).
+func (w *c14World) attrs(v interface{}) ([][]interface{}, bool) {
 	if v == nil {
 		return [][]interface{}{}, true
 	}
@@ -542,8 +549,10 @@ func c14Attrs(v interface{}, engineErrs string) ([][]interface{}, bool) {
 			return nil, false
 		}
 		if name == "ValidationErrors" {
-			if text, isStr := val.(string); isStr && engineErrs != "" && text == engineErrs {
-				val = "E"
+			if text, isStr := val.(string); isStr {
+				if tok, known := w.errTok[text]; known {
+					val = tok
+				}
 			}
 		}
 		out = append(out, []interface{}{c14S(name), c14Aval(val)})
@@ -629,15 +638,12 @@ func (w *c14World) project(routeKind string, r c15Resp, d *c14Desc) J {
 		if id, has := x["Id"].(string); has {
 			m, ok := c14ActionMap(x["ActiveManagementActions"])
 			varsOk := false
-			engineErrs := ""
 			if d != nil && ok {
 				if bits, okb := d.bitsOf(m); okb {
-					fresh := d.freshEval(bits)
-					varsOk = fresh.vars == c14Canon(x["DecisionVariables"])
-					engineErrs = fresh.errs
+					varsOk = d.freshEval(bits).vars == c14Canon(x["DecisionVariables"])
 				}
 			}
-			attrs, ok2 := c14Attrs(x["Attributes"], engineErrs)
+			attrs, ok2 := w.attrs(x["Attributes"])
 			if !ok || !ok2 || len(x) != 4 {
 				return other("malformed solution document")
 			}
@@ -905,11 +911,15 @@ func (e *c14Engine) finish(tag string) {
 
 func (w *c14World) finish() {
 	for _, d := range w.dlist {
-		inv := []string{}
+		keys := []string{}
 		for k := range d.invalid {
-			inv = append(inv, k)
+			keys = append(keys, k)
 		}
-		sort.Strings(inv)
+		sort.Strings(keys)
+		inv := [][2]string{}
+		for _, k := range keys {
+			inv = append(inv, [2]string{k, d.invalid[k]})
+		}
 		asis := [][]interface{}{}
 		names := []string{}
 		for n := range d.asis {
